@@ -38,7 +38,7 @@ def run(ctx):
                        fc.consts(MIX, chunks, attrs, depth))
     g2 = fc.mc_and_generate(ctx, mcg, timeout=1500)
     ctx.notes["g2_histories"] = len(g2)
-    hists += fc.sample(rng, g2, 2500 if ctx.thorough else 300)
+    hists += fc.sample(rng, g2, 2000 if ctx.thorough else 300)
     if ctx.thorough:
         # every history of length 3 without a view (action properties on every transition) ...
         mc = ctx.instance("MC_FilerNS_C18", "FilerNS", fc.cfg_text("FilerNS_c18.cfg"), fc.consts(MIX, [], attrs, 3))
@@ -49,10 +49,10 @@ def run(ctx):
         hists += fc.sample(rng, ctx.generate(g1, workers=4), 800)
         g3 = ctx.instance("G3_FilerNS_C18", "FilerNS", "SPECIFICATION Spec\nINVARIANT Emit\nCHECK_DEADLOCK FALSE",
                           fc.consts(MIX, [1, 2], attrs, 10))
-        hists += ctx.generate(g3, simulate=400, depth=11)
+        hists += ctx.generate(g3, simulate=200, depth=11)
     hists = [fc.observers(rng, fc.PATHS, [fc.norm_op(op, rng) for op in h], 0.15) for h in hists]
     # 2. G4: seeded random input scripts over a larger path universe, no hard links
-    hists += fc.random_scripts(rng, 600 if ctx.thorough else 80, 12, WEIGHTS)
+    hists += fc.random_scripts(rng, 400 if ctx.thorough else 80, 12, WEIGHTS)
     hists = fc.finding_scripts("C18") + hists
     fc.drive_and_judge(ctx, hists, nontrivial, mutate, ["C18"])
     ctx.rule = ("executions = one TLC witness history per (namespace state, last operation) to depth %d over 5 paths "
